@@ -26,6 +26,34 @@ PINNED_EXCH = [
 ]
 PINNED_CODES = {"KEY": "\001KEYm", "OFF": "\001OFFm", "PURPLE": "\001PURPLEm", "YELLOW": "\001YELLOWm", "VALUE": "\001VALUEm"}
 PINNED_URL = [r":\/\/(.*?)\@", "://\001BOLD_PURLEm<redacted>\001OFFm"]
+PINNED_CALL_SITES = [
+    "orso/logging/add_level.py:add_logging_level.log_for_level:_log",
+    "orso/logging/add_level.py:report_suppressions:get_logger",
+    "orso/logging/create_logger.py:get_logger:GoogleLogger",
+    "orso/logging/create_logger.py:get_logger:LogFormatter",
+    "orso/logging/create_logger.py:get_logger:StreamHandler",
+    "orso/logging/create_logger.py:get_logger:add_logging_level",
+    "orso/logging/create_logger.py:get_logger:add_logging_level",
+    "orso/logging/create_logger.py:get_logger:add_logging_level",
+    "orso/logging/create_logger.py:get_logger:add_logging_level",
+    "orso/logging/create_logger.py:get_logger:add_logging_level",
+    "orso/logging/create_logger.py:get_logger:add_logging_level",
+    "orso/logging/create_logger.py:get_logger:setFormatter",
+    "orso/logging/google_cloud_logger.py:GoogleLogger.create_logger.base_logger:write_event",
+    "orso/logging/google_cloud_logger.py:GoogleLogger.write_event:LogFormatter",
+    "orso/logging/google_cloud_logger.py:GoogleLogger.write_event:clean_record",
+    "orso/logging/google_cloud_logger.py:GoogleLogger.write_event:log_it",
+    "orso/logging/google_cloud_logger.py:GoogleLogger.write_event:log_it",
+    "orso/logging/google_cloud_logger.py:log_it:print",
+    "orso/logging/google_cloud_logger.py:report_suppressions:get_logger",
+    "orso/logging/log_formatter.py:LogFormatter.clean_record:clean_record",
+    "orso/logging/log_formatter.py:LogFormatter.clean_record:hash_it",
+    "orso/logging/log_formatter.py:LogFormatter.format:sanitize_record",
+    "orso/logging/log_formatter.py:LogFormatter.sanitize_record:clean_record",
+    "orso/logging/log_formatter.py:LogFormatter.sanitize_record:color_code",
+    "orso/logging/log_formatter.py:LogFormatter.sanitize_record:color_code",
+    "orso/logging/log_formatter.py:LogFormatter.sanitize_record:colorizer",
+]
 
 
 def parse_key_pattern(src):
@@ -124,6 +152,115 @@ def generate(o):
 
     guard = o.item("c20.url_guard", url_guard, "://")
 
+    # the structured logger applies the same rule to a text message (google_cloud_logger.py, write_event)
+    gl = Src("orso/logging/google_cloud_logger.py")
+
+    def g_url():
+        fn = gl.func("write_event", "GoogleLogger")
+        subs = [n for n in ast.walk(fn) if isinstance(n, ast.Call) and isinstance(n.func, ast.Attribute) and n.func.attr == "sub" and len(n.args) >= 2]
+        if len(subs) != 1:
+            raise KeyError("re.sub in write_event")
+        return [ast.literal_eval(subs[0].args[0]), ast.literal_eval(subs[0].args[1])]
+
+    PINNED_GURL = [r":\/\/(.*?)\@", "://<redacted>@"]
+    gu = o.item("c20.g_url_sub", g_url, PINNED_GURL)
+    guparts = o.item("c20.g_url_parts", lambda: parse_url_pattern(gu[0]), parse_url_pattern(PINNED_GURL[0]))
+    gurepl = o.item("c20.g_url_replacement", lambda: re.sub(r"\A", gu[1], "", count=1), "://<redacted>@")
+
+    def g_url_guard():
+        fn = gl.func("write_event", "GoogleLogger")
+        found = [ast.literal_eval(n.left) for n in ast.walk(fn) if isinstance(n, ast.Compare) and isinstance(n.ops[0], ast.In)
+                 and isinstance(n.left, ast.Constant) and isinstance(n.left.value, str)]
+        if len(found) != 1:
+            raise KeyError("guard")
+        return found[0]
+
+    gguard = o.item("c20.g_url_guard", g_url_guard, "://")
+
+    # hash_it: the digest is a prefix of the hex SHA-256 of the text it is given, and of nothing else
+    def digest_len():
+        fn = lf.func("hash_it", "LogFormatter")
+        rets = [n for n in ast.walk(fn) if isinstance(n, ast.Return)]
+        if len(rets) != 1:
+            raise KeyError("hash_it return")
+        r = rets[0].value
+        if not (isinstance(r, ast.Subscript) and isinstance(r.slice, ast.Slice) and r.slice.lower is None and r.slice.step is None
+                and isinstance(r.slice.upper, ast.Constant) and isinstance(r.slice.upper.value, int)):
+            raise KeyError("hash_it slice")
+        if ast.unparse(r.value) not in ("hashlib.sha256(value_to_hash.encode(errors='surrogatepass')).hexdigest()",
+                                        "hashlib.sha256(value_to_hash.encode()).hexdigest()"):
+            raise KeyError("hash_it expression")
+        return r.slice.upper.value
+
+    dlen = o.item("c20.digest_len", digest_len, 8)
+
+    # the isolation loop of sanitize_record: where it starts, and what the guard strips / looks for
+    def isolate_items():
+        fn = lf.func("sanitize_record", "LogFormatter")
+        loops = [n for n in fn.body if isinstance(n, ast.For)]
+        if len(loops) != 1:
+            raise KeyError("loop")
+        it = loops[0].iter
+        if not (isinstance(it, ast.Call) and ast.unparse(it.func) == "range" and ast.unparse(it.args[-1]) == "len(parts)" and len(it.args) in (1, 2)):
+            raise KeyError("range")
+        start = 0 if len(it.args) == 1 else ast.literal_eval(it.args[0])
+        if not isinstance(start, int) or start < 0:
+            raise KeyError("start")
+        first = loops[0].body[0]
+        # if not parts[index].lstrip(CHARS).startswith(OPEN): continue
+        t = first.test if isinstance(first, ast.If) else None
+        if not (isinstance(t, ast.UnaryOp) and isinstance(t.op, ast.Not) and isinstance(t.operand, ast.Call)
+                and isinstance(t.operand.func, ast.Attribute) and t.operand.func.attr == "startswith"
+                and isinstance(t.operand.func.value, ast.Call) and isinstance(t.operand.func.value.func, ast.Attribute)
+                and t.operand.func.value.func.attr == "lstrip" and ast.unparse(t.operand.func.value.func.value) == "parts[index]"
+                and len(first.body) == 1 and isinstance(first.body[0], ast.Continue)):
+            raise KeyError("guard")
+        return [start, ast.literal_eval(t.operand.func.value.args[0]), ast.literal_eval(t.operand.args[0])]
+
+    iso = o.item("c20.isolate", isolate_items, [0, " \t\r\n\ufeff", "{"])
+
+    # every path by which a message reaches the sanitiser or an output: the call sites in the orso tree
+    def call_sites():
+        import os as _os
+        from .. import core as _core
+        names = {"LogFormatter", "GoogleLogger", "clean_record", "sanitize_record", "write_event", "log_it", "hash_it",
+                 "add_logging_level", "get_logger", "color_code", "colorizer", "print", "StreamHandler", "setFormatter", "_log"}
+        found = []
+        root = _os.path.join(_core.REPO, "orso")
+        for dp, dn, fn in _os.walk(root):
+            dn[:] = sorted(d for d in dn if d != "__pycache__")
+            for f in sorted(fn):
+                if not f.endswith(".py"):
+                    continue
+                rel = _os.path.relpath(_os.path.join(dp, f), _core.REPO)
+                in_logging = rel.startswith("orso/logging/")
+                try:
+                    tree = ast.parse(open(_os.path.join(dp, f), encoding="utf-8").read())
+                except SyntaxError:
+                    continue
+
+                def visit(node, scope):
+                    for ch in ast.iter_child_nodes(node):
+                        sc = scope
+                        if isinstance(ch, (ast.FunctionDef, ast.AsyncFunctionDef, ast.ClassDef)):
+                            sc = scope + [ch.name]
+                        if isinstance(ch, ast.Call):
+                            callee = ch.func.attr if isinstance(ch.func, ast.Attribute) else (ch.func.id if isinstance(ch.func, ast.Name) else None)
+                            if callee in names and (in_logging or callee not in ("print", "colorizer", "_log")):
+                                found.append("%s:%s:%s" % (rel, ".".join(scope) or "<module>", callee))
+                        visit(ch, sc)
+                visit(tree, [])
+        return sorted(found)
+
+    sites = o.item("c20.call_sites", call_sites, PINNED_CALL_SITES)
+    new_sites = sorted(set(sites) - set(PINNED_CALL_SITES))
+    gone_sites = sorted(set(PINNED_CALL_SITES) - set(sites))
+    o.json["c20.call_sites_new"] = new_sites
+    o.json["c20.call_sites_gone"] = gone_sites
+    if new_sites or gone_sites:
+        # a new caller of the sanitiser / a new output path is not covered by the harness until someone looks
+        o.degraded.append("c20.call_sites changed: new %s, gone %s" % (new_sites[:6], gone_sites[:6]))
+
     exch = o.item("c20.COLOR_EXCHANGES", lambda: [[k, v] for k, v in lf.assign("COLOR_EXCHANGES").items()], PINNED_EXCH)
     codes = o.item("c20.COLOR_CODES", lambda: dict(lf.assign("COLOR_CODES")), PINNED_CODES)
     for k in PINNED_CODES:
@@ -164,6 +301,18 @@ def generate(o):
     text += "def urlOpen : List Char := %s\n" % chars(uparts[0])
     text += "def urlClose : Char := %s\n" % ("Char.ofNat %d" % ord(uparts[1]))
     text += "def urlReplacement : List Char := %s\n" % chars(urepl)
+    text += "/-- the URL rule of GoogleLogger.write_event for a text message -/\n"
+    text += "def gUrlSource : String := %s\n" % lean_str(gu[0])
+    text += "def gUrlGuard : List Char := %s\n" % chars(gguard)
+    text += "def gUrlOpen : List Char := %s\n" % chars(guparts[0])
+    text += "def gUrlClose : Char := %s\n" % ("Char.ofNat %d" % ord(guparts[1]))
+    text += "def gUrlReplacement : List Char := %s\n" % chars(gurepl)
+    text += "/-- hash_it keeps this many hex digits of SHA-256 -/\n"
+    text += "def digestLen : Nat := %d\n" % dlen
+    text += "/-- sanitize_record: first index the isolation loop tries; what the guard strips; what it looks for -/\n"
+    text += "def isolateStart : Nat := %d\n" % iso[0]
+    text += "def guardStrip : List Char := %s\n" % chars(iso[1])
+    text += "def guardOpen : List Char := %s\n" % chars(iso[2])
     text += "def colorExchanges : List (List Char × List Char) := %s\n" % lean_list(exch, pair)
     for k in ("KEY", "OFF", "PURPLE", "YELLOW", "VALUE"):
         text += "def code%s : List Char := %s\n" % (k.capitalize(), chars(codes[k]))
